@@ -80,10 +80,10 @@ def parse_vc(path):
         return '\n'.join(buf), i
 
     def rx(s):
-        m = re.search(r'/(.*)/(?:\s*#(\d+))?(?:\s+as\s+(\w+))?(?:\s+\[([^\]]+)\])?\s*(<<<)?\s*$', s)
+        m = re.search(r'/(.*)/(?:\s*#(\d+|last))?(?:\s+as\s+(\w+))?(?:\s+\[([^\]]+)\])?\s*(<<<)?\s*$', s)
         if not m: raise ValueError(f'{path}:{i+1}: expected /regex/')
         rx.alias = m.group(3); rx.tag = m.group(4)
-        return m.group(1), int(m.group(2) or 1)
+        return m.group(1), (0 if m.group(2) == 'last' else int(m.group(2) or 1))   # 0: the last match
 
     while i < len(lines):
         raw = lines[i]
@@ -426,9 +426,9 @@ def splice_module(text, mod_path, fnspecs, gen, twin=False):
             for ln in seg.split('\n'):
                 if re.search(rgx, ln): hits.append((pos, pos + len(ln)))
                 pos += len(ln) + 1
-            if len(hits) < nth:
+            if len(hits) < max(nth, 1):
                 raise Unsupported(f'lost anchor: proof anchor /{rgx}/ #{nth} in {fs.path}')
-            ls_, le_ = hits[nth - 1]
+            ls_, le_ = hits[nth - 1]   # (nth == 0: the last match)
             # a loop that rule R3c had to restructure (`for` over a range with `continue`) has paths that skip proof blocks written for
             # the straight-line body: a failed invariant there would say nothing about the code (false alarm on a harmless reshaping)
             for mr in re.finditer(r'while /\*for [^*]*\*/', text[it.body_open:it.end]):
@@ -453,6 +453,7 @@ def build(unit, out_dir, twin=False, findings=False):
     """Assemble the Verus file for a unit. Returns Generated."""
     gen = Generated()
     ctx = rules.Ctx()
+    ctx.fmt_structured = 'fmt-structured' in getattr(unit, 'opts', set())
     # clause ids
     n = 0
     for fs in unit.fns:
